@@ -154,8 +154,12 @@ def apply_event(chan, ev):
     """Apply one environment event through the real handler (takes the channel lock itself)."""
     from paramiko.message import Message
     name = ev[0]
-    if name == "EvAdjust":
+    if name == "EvBoth":
+        apply_event(chan, tuple(ev[1]))
+        apply_event(chan, tuple(ev[2]))
+    elif name == "EvAdjust":
         chan._window_adjust(Message(struct.pack(">I", ev[1])))
+        chan._verif_adjusts = getattr(chan, "_verif_adjusts", 0) + ev[1]
     elif name == "EvClose":
         chan.close()
     elif name == "EvPeerClose":
@@ -245,6 +249,8 @@ def classify(kind, val):
 
 def strip_ev(ev):
     """Event as the model sees it (the shutdown variant is not part of the model)."""
+    if ev[0] == "EvBoth":
+        return ("EvBoth", strip_ev(tuple(ev[1])), strip_ev(tuple(ev[2])))
     return (ev[0], ev[1]) if ev[0] == "EvAdjust" else (ev[0],)
 
 
@@ -330,6 +336,8 @@ def run_sendall_scripted(case):
     return {"code": classify(kind, val), "exc": None if kind != "exc" else type(val).__name__,
             "closed": bool(chan.closed), "eof": bool(chan.eof_sent), "window": chan.out_window_size,
             "msgs": msgs, "pre_state": pre_state, "bad_header": tr.bad_header, "chan": chan,
+            "wire_types": [t for t, _ in tr.msgs], "adjusts": getattr(chan, "_verif_adjusts", 0),
+            "initial_window": case["window"],
             "overrun": script.overrun}
 
 
@@ -378,6 +386,20 @@ def oracle(ctx, case, obs):
                  "for its whole timeout without being able to send (wake-ups that open no window must not restart "
                  "the timer): socket.timeout was due", case=rep, expected="socket.timeout after %s s"
                  % obs["overrun"]["timeout"], observed=obs["overrun"])
+    wt = obs.get("wire_types")
+    if wt is not None:
+        ends = [i for i, t in enumerate(wt) if t in (96, 97)]          # our CHANNEL_EOF / CHANNEL_CLOSE
+        if ends and any(t in (MSG_DATA, MSG_EXT) for t in wt[ends[0] + 1:]):
+            ctx.fail("data-after-eof", "a data message was handed to the transport after our EOF / CLOSE: a sender "
+                     "woken by a window adjust did not notice that the stream had been shut down meanwhile",
+                     case=rep, expected="socket.error, no data after EOF", observed=wt)
+        framed = sum(len(p) for _, p in obs["msgs"])
+        # (text arguments with multi-byte characters are debited per character by the current code -- a flow
+        # control matter, C19/C20 -- so the account is checked for byte-counted arguments only)
+        if in_model(case) and obs["window"] != obs["initial_window"] + obs["adjusts"] - framed:
+            ctx.fail("window-account-leak", "out_window_size != initial window + window adjusts - bytes framed: the "
+                     "window was debited by more (or less) than what was put into data messages", case=rep,
+                     expected=obs["initial_window"] + obs["adjusts"] - framed, observed=obs["window"])
     want = MSG_EXT if case["stderr"] else MSG_DATA
     if any(t != want for t, _ in obs["msgs"]) or obs["bad_header"] is not None:
         ctx.fail("sendall-wrong-stream", "data message of the wrong type / header for this stream",
@@ -388,7 +410,13 @@ def oracle(ctx, case, obs):
 
 # ---- generators ---------------------------------------------------------------------------
 
-def gen_event(rng, closing=0.5):
+def gen_event(rng, closing=0.5, compound=0.12):
+    if closing > 0 and rng.random() < compound:
+        # two things within one sleep of the sender (or before one send): what another thread did meanwhile
+        # (shutdown_write / close / peer EOF / peer CLOSE / loss) together with the window adjust that wakes it
+        other = gen_event(rng, 1.0, 0.0)
+        adj = ("EvAdjust", rng.choice([1, 2, 5, 40]))
+        return ("EvBoth", other, adj) if rng.random() < 0.7 else ("EvBoth", adj, other)
     if rng.random() < 1 - closing:
         return ("EvAdjust", rng.choice([0, 1, 1, 2, 3, 5, 8, 40, rng.randrange(0, 20)]))
     name = rng.choice(EVENTS[1:])
@@ -453,6 +481,26 @@ def gen_case(rng, flavour):
         rounds = [([first] + (rounds[0][0] if rounds else []), rounds[0][1] if rounds else [])] + rounds[1:]
     return {"data": data, "window": window, "maxpkt": maxpkt, "timeout": timeout,
             "stderr": rng.random() < 0.4, "rounds": rounds}
+
+
+def meanwhile_cases():
+    """A sender asleep on a closed window, woken by a window adjust, while ANOTHER thread did something within the
+    same sleep: every kind of 'something' x order x mode x stream x whether the sleep is in the first or a later
+    call of send.  All-or-raise, and never data after our EOF."""
+    out = []
+    others = [("EvShutWrite", 0), ("EvShutWrite", 1), ("EvShutWrite", 2), ("EvClose",), ("EvPeerClose",),
+              ("EvUnlink",), ("EvPeerEof",)]
+    for other in others:
+        for first in (True, False):
+            for timeout in (None, 10.0):
+                for stderr in (False, True):
+                    for window in (0, 3):
+                        adj = ("EvAdjust", 40)
+                        both = ("EvBoth", other, adj) if first else ("EvBoth", adj, other)
+                        rounds = [([], [(both, 1)])] if window == 0 else [([], []), ([], [(both, 1)])]
+                        out.append({"data": list(range(1, 10)), "window": window, "maxpkt": 69, "timeout": timeout,
+                                    "stderr": stderr, "rounds": rounds})
+    return out
 
 
 def case_key(case):
@@ -523,7 +571,9 @@ def run_live(ctx, timeout, prior, stderr, window, helper):
         hth.join(2.0)
     obs = {"code": classify(kind, val), "exc": None if kind != "exc" else type(val).__name__,
            "closed": bool(chan.closed), "eof": bool(chan.eof_sent), "window": chan.out_window_size,
-           "msgs": tr.data[before:], "pre_state": pre_state, "bad_header": tr.bad_header}
+           "msgs": tr.data[before:], "pre_state": pre_state, "bad_header": tr.bad_header,
+           "wire_types": [t_ for t_, _ in tr.msgs], "adjusts": getattr(chan, "_verif_adjusts", 0),
+           "initial_window": window}
     wakes = [(helper, 0)] if helper is not None else []
     case = {"data": list(data), "window": window, "maxpkt": 69, "timeout": timeout, "stderr": stderr,
             "rounds": [([prior] if prior else [], [])], "live": True, "helper": helper}
@@ -825,11 +875,12 @@ def e2e_transfer(cfg):
         rth.start()
         sender.settimeout(cfg["timeout"])
         fn = sender.sendall_stderr if stderr else sender.sendall
-        kind, val, th = watchdog(lambda: fn(data), E2E_WD)
+        wd = E2E_WD + cfg["size"] / 100000.0
+        kind, val, th = watchdog(lambda: fn(data), wd)
         if kind == "ok":
-            rth.join(E2E_WD)
+            rth.join(wd)
         stop.set()
-        obs = {"outcome": "returned" if kind == "ok" else ("still blocked after %.0f s" % E2E_WD if kind == "hang"
+        obs = {"outcome": "returned" if kind == "ok" else ("still blocked after %.0f s" % wd if kind == "hang"
                                                            else type(val).__name__),
                "bytes_given": len(data), "bytes_received_by_peer": len(got),
                "sender_window": sender.out_window_size, "reader_in_window_threshold": reader.in_window_threshold,
@@ -996,6 +1047,10 @@ def e2e_configs(seed, thorough):
         c["size"] = [9000, 70000, 5000][(i + n) % 3]
         c["timeout"] = [None, 30.0][(i + n) % 2]
         out.append(c)
+    # far above the default window AND the default max packet size, everything at its default
+    out.append({"configured": "server", "direction": "c2s", "stderr": False, "size": (1 << 20) + 1, "timeout": None})
+    if thorough:
+        out.append({"configured": "client", "direction": "s2c", "stderr": True, "size": (1 << 21) + 3, "timeout": 60.0})
     # the smallest documented-legal window on the receiving server, always
     out.append({"configured": "server", "default_window_size": 2048, "default_max_packet_size": 32768,
                 "direction": "c2s", "stderr": False, "size": 7000, "timeout": None})
@@ -1082,6 +1137,10 @@ def run(ctx):
         if hangs >= 3:
             ctx.notes.append("stopped generating after 3 hangs (each costs the watchdog time)")
             break
+    if hangs < 3:
+        for case in meanwhile_cases():
+            obs = run_one(ctx, case, "meanwhile")
+            cases.append((case, canon(obs, case["data"])))
     cases = [(c, exp) for c, exp in cases if in_model(c)]      # non-ASCII text: oracle only (lengths in characters)
     bad = safe_mm(ctx, "run_sendall", "((bool * chan) * (list Z * list round))",
                                [(coq_case(c), exp) for c, exp in cases])
@@ -1132,6 +1191,12 @@ def run(ctx):
             exp = [classify(kind, val)] + st
             if kind == "hang":
                 ctx.fail("send-hang", "send does not return", case=case)
+        wt = [t_ for t_, _ in tr.msgs]
+        ends = [i for i, t_ in enumerate(wt) if t_ in (96, 97)]
+        if ends and any(t_ in (MSG_DATA, MSG_EXT) for t_ in wt[ends[0] + 1:]):
+            ctx.fail("data-after-eof", "send handed a data message to the transport after our EOF / CLOSE: a sender "
+                     "woken by a window adjust did not notice that the stream had been shut down meanwhile",
+                     case=case, expected="0 / socket.error, no data after EOF", observed=wt)
         scases.append((case, exp))
         ctx.count(("send", case_key(case)), nontrivial=bool(data), kind="send")
     bad = safe_mm(ctx, "run_send", "((bool * chan) * (list Z * round))",
@@ -1152,7 +1217,8 @@ def run(ctx):
             helpers = [None]
             if window == 0 and not dead and timeout != 0.0:
                 # the sender falls asleep: wake it by a window adjust / close / shutdown from another thread
-                helpers = [("EvAdjust", 50), ("EvClose",), ("EvUnlink",)]
+                helpers = [("EvAdjust", 50), ("EvClose",), ("EvUnlink",),
+                           ("EvBoth", ("EvShutWrite", 0), ("EvAdjust", 50))]
             elif window == 4 and not dead and timeout != 0.0:
                 helpers = [("EvAdjust", 50)]
             for helper in helpers:
